@@ -385,11 +385,13 @@ def judge_case(chk, case, res, keep_dir):
             chk.counters.get("exe_dontcare_runs_within_band_of_half_box", 0) + 1
         return True
     if first_bad is None:
+        if not res.timed_out and res.rc != 0 and \
+                "bigger than half the box" in res.err:
+            viol("valid-frame-rejected", {},
+                 "csg_map refused a trajectory whose beads are all smaller "
+                 "than half the shortest box height")
+            return False
         if not chk.proc_result(res, "csg_map " + fam, wit):
-            if res.rc not in (0,) and "bigger than half the box" in res.err:
-                viol("valid-frame-rejected", {},
-                     "csg_map refused a trajectory whose beads are all "
-                     "smaller than half the box")
             return False
     else:
         if res.timed_out:
@@ -408,8 +410,16 @@ def judge_case(chk, case, res, keep_dir):
             chk.counters[k] = chk.counters.get(k, 0) + 1
     got = []
     if os.path.exists(case["out"]):
-        got = orc.parse_out_gro(case["out"]) if case["outfmt"] == "gro" \
-            else orc.parse_out_dump(case["out"])
+        try:
+            got = orc.parse_out_gro(case["out"]) if case["outfmt"] == "gro" \
+                else orc.parse_out_dump(case["out"])
+        except (ValueError, IndexError, KeyError) as e:
+            # e.g. a value that does not fit its fixed-width field; every
+            # expected value of the generated cases fits
+            viol("output-unparsable", {"parse_error": repr(e)},
+                 "the file written by csg_map cannot be parsed in its own "
+                 "format (expected values all fit the format)")
+            return False
         got = [g for g in got if not g.get("truncated")]
     nwant = len(frames) if first_bad is None else first_bad
     if first_bad is not None and len(got) > nwant:
